@@ -44,6 +44,13 @@ OverfullAfter(A1, J1, M) ==
   {a \in 1..Len(A1) : BondSumE(KekAdj(J1, M), a) + (IF A1[a].h > 0 THEN A1[a].h ELSE 0)
                          > Capacity(Table, A1[a].el, A1[a].chg)}
 
+(* atoms above capacity when every atom that needs a pi bond gets exactly one *)
+MinOverfull(A1, J1) ==
+  LET E == AroEdges(J1)
+  IN {a \in 1..Len(A1) :
+        SigmaCount(J1, a) + (IF InDS(E, a) /\ PiClass(A1, J1, a) = "needs" THEN 1 ELSE 0)
+          + (IF A1[a].h > 0 THEN A1[a].h ELSE 0) > Capacity(Table, A1[a].el, A1[a].chg)}
+
 SemEq(dd, smi) ==          \* the library's decoded SMILES denotes dd's molecule
   IF smi = dd.out THEN ""
   ELSE LET g == ReadSmilesX(smi, TRUE)
@@ -69,7 +76,10 @@ Verdict(r) ==
                ELSE IF r.why = "constraints"
                THEN IF ~r.strict THEN <<"C06", "constraint rejection with strict=False">>
                     ELSE IF AroEdges(g.adj) = {} /\ OverfullAfter(g.atoms, g.adj, {}) = {}
-                         THEN <<"C06", "strict rejection although no atom exceeds its capacity">> ELSE <<"", "">>
+                         THEN <<"C06", "strict rejection although no atom exceeds its capacity">>
+                    ELSE IF AroEdges(g.adj) # {} /\ AllStandard(g.atoms, g.adj) /\ MinOverfull(g.atoms, g.adj) = {}
+                         THEN <<"C05", "strict rejection of an aromatic molecule in which no atom can exceed its capacity under any valid assignment">>
+                    ELSE <<"", "">>
                ELSE <<"", "unjudged: rejected by the library's parser">>
      ELSE \* accepted
      IF ~WellFormed(r.sel) THEN <<"C14", "encoder output is not a well-formed SELFIES string">>
